@@ -161,6 +161,40 @@ func ruleFLAGSYM1(c *Ctx) {
 		}
 		c.Oblige("same-options:"+pr.label, pr.unm.Pos(), diff == 0,
 			fmt.Sprintf("option(s) consulted by only one of the two directions: marshal-only-reads=%s unmarshal-only-reads=%s", ft.Names(m&diff), ft.Names(u&diff)))
+		// precedence: the representation-selecting options that both directions branch on (if / else-if chains at the
+		// top of the closure) are tested in the same order, so that when two of them are set both directions pick the same one
+		mo, uo2 := branchOrder(p, pr.mar, oneSided|tolerated), branchOrder(p, pr.unm, oneSided|tolerated)
+		common := func(a, b []uint64) []uint64 {
+			in := map[uint64]bool{}
+			for _, x := range b {
+				in[x] = true
+			}
+			var out []uint64
+			for _, x := range a {
+				if in[x] {
+					out = append(out, x)
+				}
+			}
+			return out
+		}
+		ma, ua := common(mo, uo2), common(uo2, mo)
+		same := len(ma) == len(ua)
+		for i := range ma {
+			if same && ma[i] != ua[i] {
+				same = false
+			}
+		}
+		if len(ma) >= 2 {
+			names := func(xs []uint64) string {
+				var out []string
+				for _, x := range xs {
+					out = append(out, ft.Names(x))
+				}
+				return strings.Join(out, " > ")
+			}
+			c.Oblige("same-precedence:"+pr.label, pr.unm.Pos(), same,
+				"the two directions test their representation options in different orders (marshal: "+names(ma)+"; unmarshal: "+names(ua)+"): with both set, Marshal writes one representation and Unmarshal expects the other")
+		}
 	}
 }
 
@@ -241,6 +275,7 @@ func formatCases(p *Program, f *FuncInfo) map[string]bool {
 }
 
 func ruleCODEC1(c *Ctx) {
+	codecRFC3339Base(c)
 	p := c.P
 	pairs := arshalerPairs(p)
 	nFmt := 0
@@ -514,4 +549,36 @@ func ruleCODEC1(c *Ctx) {
 		c.Oblige("bit-size:"+pr.label, pr.decl.Pos(), len(bad) == 0, strings.Join(bad, "; "))
 	}
 	c.Floor("numeric factories with a bit size", nBits, 3)
+}
+
+// branchOrder lists, in source order, the option masks tested by the conditions of the if / else-if chains that are
+// direct statements of the closure body (first occurrence of each mask; masks within ignore are skipped).
+func branchOrder(p *Program, f *FuncInfo, ignore uint64) []uint64 {
+	info := f.Info()
+	var out []uint64
+	seen := map[uint64]bool{}
+	var chain func(ifs *ast.IfStmt)
+	chain = func(ifs *ast.IfStmt) {
+		ast.Inspect(ifs.Cond, func(n ast.Node) bool {
+			if call, ok := n.(*ast.CallExpr); ok {
+				if mm, _, v, ok := FlagCall(info, call); ok && (mm == "Get" || mm == "Has") {
+					m := v &^ 1 &^ ignore
+					if m != 0 && !seen[m] {
+						seen[m] = true
+						out = append(out, m)
+					}
+				}
+			}
+			return true
+		})
+		if e, ok := ifs.Else.(*ast.IfStmt); ok {
+			chain(e)
+		}
+	}
+	for _, st := range f.Body().List {
+		if ifs, ok := st.(*ast.IfStmt); ok {
+			chain(ifs)
+		}
+	}
+	return out
 }
